@@ -123,12 +123,50 @@ def run_case(case, ctx):
             return
 
 
+def _history_probe(w, ctx):
+    import copy
+    if w.name == 'linf3':
+        return
+    psi, H = w.psi, w.K
+    v0 = dense.mps_to_vector(psi.A)
+    n0 = float(np.linalg.norm(v0))
+    if n0 < 1e-12 or max(psi.bond_dims) > 32:
+        return
+    Hd = dense.mpo_to_matrix(H.A)
+    hb = ec.mpo_bytes(H)
+    e0 = energy(v0 / n0, Hd).real
+    escale = 1 + float(np.max(np.abs(Hd)))
+    for integ in ('single', 'two'):
+        if integ == 'two' and psi.nsites < 2:
+            continue
+        p2 = copy.deepcopy(psi)
+        dims0 = list(p2.bond_dims)
+        r = run_integrator(integ, H, p2, 0.2j, 1, 3)
+        ctx.calls += 1
+        v = dense.mps_to_vector(p2.A)
+        ctx.check(abs(float(np.real(r)) - n0) <= 1e-9 * (1 + n0), f'history:{integ}:returns_norm_of_input_state', f'{r} vs {n0}')
+        ctx.check(abs(np.linalg.norm(v) - 1) <= 1e-9, f'history:{integ}:norm_stays_one', np.linalg.norm(v))
+        ctx.check(abs(energy(v, Hd).real - e0) <= 1e-9 * escale, f'history:{integ}:energy_conserved', f'{energy(v, Hd).real} vs {e0}')
+        ctx.check(ec.mpo_bytes(H) == hb, f'history:{integ}:hamiltonian_not_modified')
+        if integ == 'single':
+            ctx.check(all(a <= b for a, b in zip(p2.bond_dims, dims0)), 'history:single_site_never_increases_bond_dimension', f'{dims0} -> {p2.bond_dims}')
+
+
+def replay_case(space, case, seed):
+    if space.name == 'history_states':
+        from props import hist_probe
+        return hist_probe.replay(space, case, seed)
+    return space.run_one(case, seed).fails
+
+
 def sig(case):
     return f'{case[0]}:L={case[1]}:{case[3]}'
 
 
 def spaces(tier, seed):
-    return [Space('tdvp_conservation', core.chunked(_cases(tier), 20), run_case=run_case, sig=sig,
+    from props import hist_probe
+    hist = hist_probe.probe_space('history_states', ['xxz3', 'ising3', 'fh2', 'bh3', 'mol4'], 2 if tier == 'quick' else 3, _history_probe)
+    return [hist, Space('tdvp_conservation', core.chunked(_cases(tier), 20), run_case=run_case, sig=sig,
                   bounds={'hamiltonians': ec.ALL_H, 'L': [1, 2, 3, 4], 'dense_dim<=': 256, 'profiles': PROFILES, 'dt': [str(x) for x in DTS],
                           'steps': [1, 2, 3], 'krylov_iterations': [1, 2, 3, 5, 25],
                           'combination': 'quick: one axis varied at a time around (0.4j,1,3); thorough: full product',
